@@ -141,6 +141,40 @@ HISTORY = {
     'C19_M': 'missed at first; caught by the sibling-defaults rule of the two refractivity routines',
     'C19_N': 'missed at first; caught by the first_vel_params case table (a supplied reference index wins for every combination of the other optional arguments)',
     'C19_O': 'missed at first; caught by the linearity-in-humidity rule (no case distinction on the humidity itself)',
+    # round 7 (ids P/Q/R)
+    'C01_P': 'missed at first; caught by the validated-copy rule (a guard that checks int(zone) while the code goes on with zone itself)',
+    'C01_R': 'UNDECIDED at first (numeval rebuilt function atoms while substituting); caught once the guard rule evaluated conditions correctly and took the domain relation into account (explicit zones within 30 degrees of the longitude, measured on the circle)',
+    'C02_P': 'first only C15; C02 now runs the CoordGeo.tm delegation rule of its observe_at list',
+    'C02_Q': 'missed at first (also by C15); caught by the round rules of the coordinate classes (zone, hemisphere and projection travel with a rounded coordinate)',
+    'C03_Q': 'UNDECIDED at first; caught by the float-result rule (a bare integer literal substituted for a boundary value is refused by the coordinate classes)',
+    'C03_R': 'not caught: the rewrite a (1/f - 1) / (1/f) of the semi-minor axis equals a (1 - f) for every finite inverse flattening; it differs only for 1/f = infinity (a sphere), which was judged outside "arbitrary (a, 1/f)"',
+    'C04_P': 'UNDECIDED at first; caught after numpy.isclose / math.isclose were modelled as the ordering tests they are',
+    'C04_Q': 'missed at first; caught by the binding rule of angular_typecheck (order-aware resolution of module-level names: a later def shadows an import)',
+    'C05_P': 'not caught: numpy.float32 arguments passed through unconverted - an argument TYPE outside what the static model types (numbers are reals)',
+    'C06_Q': 'missed at first; caught after in-place array updates kept their aliases (b = a; b *= s changes a)',
+    'C07_P': 'first only C11; C07 now runs the negation-pair rule over the catalogue (clause 2 quantifies over every shipped set and its negation)',
+    'C08_P': 'missed at first; caught by the method value table (DMS / DDM objects built from constant fields, a minutes field of 60 included)',
+    'C08_Q': 'missed at first; caught by the method value table (negation of zero-degree angles with whole minutes)',
+    'C09_P': 'missed at first; caught after vars(x) was treated as an alias of x by the effect analysis',
+    'C10_P': 'first only C01; C10 now runs the coefficient tables of both directions',
+    'C10_Q': 'first only C01; C10 now runs the projection-object rules',
+    'C10_R': 'missed at first; caught by a guard rule for psfandgridconv over the band of the projection with the longitude difference measured on the circle',
+    'C11_P': 'UNDECIDED at first; caught by the type-dependence rule (the conversion branches on isinstance(x, int) of a parameter value)',
+    'C11_Q': 'ANALYSIS-ERROR at first (the catalogue was folded with the LAST binding of every name); caught after module-level expressions saw the binding in force at their own statement',
+    'C12_R': 'missed at first; caught by the numeric-type rule on the operators that take a number',
+    'C13_P': 'ANALYSIS-ERROR at first (zeros_like unmodelled); caught after zeros_like inherited the element type of a caller-supplied array (R-DTYPE)',
+    'C13_R': 'UNDECIDED at first; caught by the numeric-type rule (a height tested with isinstance(x, (int, float)))',
+    'C15_P': 'UNDECIDED at first; caught by comparing the decimal value of a constructed angle object with the decimal it was built from',
+    'C15_Q': 'UNDECIDED at first; a (source, target) pair that raises or returns nothing is now a violation',
+    'C16_P': 'missed at first; caught by R-DTYPE on helpers of the listed functions',
+    'C16_Q': 'UNDECIDED at first (numpy.diag unmodelled); caught after it was modelled',
+    'C16_R': 'UNDECIDED at first; caught by the special-point analysis for conjunctions of equalities between inputs',
+    'C17_R': 'missed at first; caught by the position rule (the latitude / longitude looked up are the arguments scaled to arc-seconds, for every position of the domain)',
+    'C18_P': 'missed at first; caught by the skip-set rule (membership-preserving rebinds only)',
+    'C18_Q': 'missed at first; caught by the flag rule (a flag that selects the record shape is not set inside the loop that reads it)',
+    'C18_R': 'missed at first; caught by the block-walk rule (a block with an optional second line is not walked from a fixed offset)',
+    'C20_P': 'missed at first (roundings in api/ were treated like those of an oracle module); caught after the module filter was corrected',
+    'C20_Q': 'missed at first; caught by the identity-comparison rule (x is <string constant>)',
     'C08_C': 'patch re-based after the HP repairs; first UNDECIDED, caught after str(float) was modelled as a non-fixed-point rendering',
 }
 
